@@ -8,7 +8,8 @@ From Coq Require Import NArith.
 Open Scope Z_scope.
 
 (** outcome of one run *)
-Inductive outcome := ODone (res : list P) | OHang | OPanic.
+Inductive outcome := ODone (res : list P) | OHang | OPanic
+  | ODoneR (res : list P).   (* completed on a multi-host deployment *)
 
 Record case := {
   c_pipe : pipe;
@@ -21,7 +22,7 @@ Definition canon (l : list P) : list P := sort_by pkey (sort_by snd l).
 
 Definition run_ok (expected : list P) (o : outcome) : bool :=
   match o with
-  | ODone res => pl_eqb (canon res) expected
+  | ODone res | ODoneR res => pl_eqb (canon res) expected
   | _ => false
   end.
 
@@ -59,7 +60,7 @@ Fixpoint cur_ops (cur : repl) (os : list op1) : repl * bool :=
         match o with
         | ORepl r => (r, repl_raises cur r)
         | OShuffle | OGroupBySum | OGroupByCount | OGroupByMax | OGroupByMin | OGroupByFoldSum
-        | OGroupByThenFoldSum | OGroupByReduceMax | ONested _ _ _ => (RpUnlimited, false)
+        | OGroupByThenFoldSum | OGroupByReduceMax | ONested _ _ _ | ONestedO _ _ _ => (RpUnlimited, false)
         | OFoldSum | OFoldAssocSum | OReduceMax | OReduceAssocMax => (RpOne, false)
         | _ => (cur, false)
         end in
@@ -82,11 +83,85 @@ Fixpoint cur_repl (p : pipe) : repl * bool :=
 
 Definition all_but (bad : outcome -> bool) (c : case) : bool :=
   forallb (fun o => match o with
-                    | ODone res => pl_eqb (canon res) (canon (denote (c_pipe c)))
+                    | ODone res | ODoneR res => pl_eqb (canon res) (canon (denote (c_pipe c))) || bad o
                     | o' => bad o' end) (c_runs c).
+
+(** known finding F12 (class 3): an operator inside a NESTED loop body that reads the state of
+    an ENCLOSING loop may see a stale value of it on several hosts (every block input waits
+    on the innermost loop's state lock only): runs on a multi-host deployment may complete
+    with a wrong result; every single-host run is right. [has_outer_read] is defined below. *)
+
+
+(** ---- nested loops whose body reads the ENCLOSING loop's state ([ONestedO]) ---- *)
+
+(** the op reads the state it is evaluated with: it is [OAddState], or an [ONestedO] whose
+    body (evaluated with that same state) does; an [ONested] body reads its OWN state, so it
+    is not looked into *)
+Fixpoint op_reads_state (o : op1) : bool :=
+  match o with
+  | OAddState => true
+  | ONestedO _ _ b =>
+      (fix go (os : list op1) : bool :=
+         match os with [] => false | o' :: os' => op_reads_state o' || go os' end) b
+  | _ => false
+  end.
+Fixpoint reads_state (os : list op1) : bool :=
+  match os with [] => false | o :: os' => op_reads_state o || reads_state os' end.
+
+(** the op is, or contains at any depth reachable through [ONested] / [ONestedO] bodies, an
+    [ONestedO _ _ b] with [reads_state b = true] *)
+Fixpoint op_outer_read (o : op1) : bool :=
+  match o with
+  | ONested _ _ b =>
+      (fix go (os : list op1) : bool :=
+         match os with [] => false | o' :: os' => op_outer_read o' || go os' end) b
+  | ONestedO _ _ b =>
+      reads_state b
+      || (fix go (os : list op1) : bool :=
+            match os with [] => false | o' :: os' => op_outer_read o' || go os' end) b
+  | _ => false
+  end.
+Fixpoint ops_outer_read (os : list op1) : bool :=
+  match os with [] => false | o :: os' => op_outer_read o || ops_outer_read os' end.
+
+(** the pipe contains a replay / iterate loop whose body contains such an [ONestedO] *)
+Fixpoint has_outer_read (p : pipe) : bool :=
+  match p with
+  | PSrc _ _ => false
+  | POp p _ | PSplit p _ _ _ => has_outer_read p
+  | PReplay p _ _ body | PIterate p _ _ body _ => ops_outer_read body || has_outer_read p
+  | PJoin l r _ _ _ | PMerge l r => has_outer_read l || has_outer_read r
+  end.
+
+(** unfolding equations of the nested fixpoints *)
+Lemma op_reads_state_nestedO n limit b : op_reads_state (ONestedO n limit b) = reads_state b.
+Proof. reflexivity. Qed.
+Lemma op_reads_state_nested n limit b : op_reads_state (ONested n limit b) = false.
+Proof. reflexivity. Qed.
+Lemma op_outer_read_nested n limit b : op_outer_read (ONested n limit b) = ops_outer_read b.
+Proof. reflexivity. Qed.
+Lemma op_outer_read_nestedO n limit b :
+  op_outer_read (ONestedO n limit b) = reads_state b || ops_outer_read b.
+Proof. reflexivity. Qed.
+
+Example reads_state_ex1 : reads_state [OMapAdd 1; ONestedO 2 10 [OShuffle; ONestedO 2 10 [OAddState]]] = true.
+Proof. reflexivity. Qed.
+Example reads_state_ex2 : reads_state [OMapAdd 1; ONested 2 10 [OAddState]] = false.
+Proof. reflexivity. Qed.
+Example has_outer_read_ex1 :
+  has_outer_read (POp (PReplay (PSrc true []) 2 10 [ONested 2 10 [OMapAdd 1; ONestedO 3 10 [OAddState]]]) OFoldSum) = true.
+Proof. reflexivity. Qed.
+Example has_outer_read_ex2 :
+  has_outer_read (PIterate (PSrc true []) 2 10 [ONestedO 3 10 [ONested 2 10 [OAddState]]; OAddState] false) = false.
+Proof. reflexivity. Qed.
+Example has_outer_read_ex3 : (* not inside a replay / iterate body *)
+  has_outer_read (POp (PSrc true []) (ONestedO 3 10 [OAddState])) = false.
+Proof. reflexivity. Qed.
+
 Definition known_class (c : case) : N :=
   if has_iterate (c_pipe c) && all_but (fun o => match o with OHang => true | _ => false end) c then 1%N
   else if snd (cur_repl (c_pipe c)) && all_but (fun o => match o with OPanic => true | _ => false end) c then 2%N
+  else if has_outer_read (c_pipe c) && all_but (fun o => match o with ODoneR _ => true | _ => false end) c then 3%N
   else 0%N.
 
 (** there is no separate machine model at this level: a case is "explained" when it meets the
